@@ -49,6 +49,7 @@ fn nontrivial(scenario: &str, out: &Outcome) -> bool {
 		"btree" => base && s.iter_calls >= 1,
 		"logfuzz" => s.logfuzz_images >= 1,
 		"ioerr" => s.io_faults_fired >= 1,
+		"migrate" => s.probes.get("migrate_ops").cloned().unwrap_or(0) >= 1 && s.nonempty_reads >= 1,
 		_ => base,
 	}
 }
